@@ -696,6 +696,8 @@ func (f *formatter) StmtLabel(n *ast.StmtLabel) {
 }
 
 func (f *formatter) StmtNamespace(n *ast.StmtNamespace) {
+	braced := n.OpenCurlyBracketTkn != nil || len(n.Stmts) > 0
+
 	n.OpenCurlyBracketTkn = nil
 	n.CloseCurlyBracketTkn = nil
 	n.SemiColonTkn = nil
@@ -707,7 +709,7 @@ func (f *formatter) StmtNamespace(n *ast.StmtNamespace) {
 		n.Name.Accept(f)
 	}
 
-	if len(n.Stmts) > 0 {
+	if braced {
 		f.addFreeFloating(token.T_WHITESPACE, []byte(" "))
 		n.OpenCurlyBracketTkn = f.newToken('{', []byte("{"))
 		if len(n.Stmts) > 0 {
